@@ -7,6 +7,13 @@
 (* new plans per attempt, no two surviving plans with the same (start,     *)
 (* current) pair, at most 36 alive, and the cumulative number of candidate *)
 (* steps stays below 216 (it + 1) + 6.                                     *)
+(* Clauses named C19.* are what the property states (no duplicate pair,    *)
+(* <= 36 alive, linear step count, termination); clauses named M19.* say   *)
+(* that an event is not a step of THIS model of the implementation (each   *)
+(* live plan stepped exactly once, <= 1 switch call per plan, <= 5 spawned *)
+(* per call, pruning never adds, consecutive iteration numbers <= n): a    *)
+(* different but still linear design would show up there - the driver      *)
+(* reports them as model deviations, not as violations of C19.             *)
 (***************************************************************************)
 EXTENDS Integers, Sequences, FiniteSets, Json, IOUtils, TLC
 Cases == ndJsonDeserialize(IOEnv.TRACE)
@@ -21,16 +28,17 @@ EvIterate ==
          pairs == {<<e.alive[i][1], e.alive[i][2]>> : i \in 1..Len(e.alive)}
          st == v_steps + e.stepped + 5 * e.calls IN
      /\ v_fails' = v_fails
-          \cup (IF e.stepped # v_alive THEN {"C19.everyPlanStepsOnce"} ELSE {})
-          \cup (IF e.calls > e.stepped THEN {"C19.switchCalls"} ELSE {})
-          \cup (IF e.spawned > 5 * e.calls \/ e.before > e.stepped + e.spawned THEN {"C19.spawnBound"} ELSE {})
+          \cup (IF e.stepped # v_alive THEN {"M19.everyPlanStepsOnce"} ELSE {})
+          \cup (IF e.calls > e.stepped THEN {"M19.switchCalls"} ELSE {})
+          \cup (IF e.spawned > 5 * e.calls \/ e.before > e.stepped + e.spawned THEN {"M19.spawnBound"} ELSE {})
           \cup (IF Cardinality(pairs) # Len(e.alive) THEN {"C19.duplicatePair"} ELSE {})
           \cup (IF e.aliveCount > 36 THEN {"C19.aliveBound"} ELSE {})
           \cup (IF ~(pairs \subseteq (0..5) \X (0..5)) THEN {"C19.pairRange"} ELSE {})
-          \cup (IF e.aliveCount > e.before THEN {"C19.pruneGrows"} ELSE {})
+          \cup (IF e.aliveCount > e.before THEN {"M19.pruneGrows"} ELSE {})
           \cup (IF st > 216 * (e.it + 1) + 6 THEN {"C19.linear"} ELSE {})
-          \cup (IF v_it >= 0 /\ e.it # v_it + 1 THEN {"C19.iterationOrder"} ELSE {})
-          \cup (IF e.it > Case.n THEN {"C19.tooManyIterations"} ELSE {})
+          \cup (IF v_it >= 0 /\ e.it # v_it + 1 THEN {"M19.iterationOrder"} ELSE {})
+          \cup (IF e.it > 2 * Case.n + 2 THEN {"C19.tooManyIterations"} ELSE {})
+          \cup (IF e.it > Case.n THEN {"M19.iterations"} ELSE {})
      /\ v_alive' = e.aliveCount /\ v_steps' = st /\ v_it' = e.it
   /\ v_l' = v_l + 1 /\ UNCHANGED v_c
 Next == EvIterate
@@ -39,7 +47,7 @@ FinalFails == v_fails
   \cup (IF "panic" \in DOMAIN Case THEN {"C19.panic"} ELSE {})
   \cup (IF "hang" \in DOMAIN Case THEN {"C19.hang"} ELSE {})
   \cup (IF "ms" \in DOMAIN Case /\ Case.ms > 10000 THEN {"C19.slow"} ELSE {})
-  \cup (IF "start" \in DOMAIN Case /\ "seeds" \in DOMAIN Case.start /\ Case.start.seeds > 5 THEN {"C19.seeds"} ELSE {})
+  \cup (IF "start" \in DOMAIN Case /\ "seeds" \in DOMAIN Case.start /\ Case.start.seeds > 5 THEN {"M19.seeds"} ELSE {})
   \* the whole planning work of one encode_data() call: the same linear bound, whatever the number of planner invocations
   \cup (IF "enc" \in DOMAIN Case /\ Case.enc.steps > 216 * (Case.n + 1) + 6 THEN {"C19.encodePlanningWork"} ELSE {})
   \cup (IF "enc" \in DOMAIN Case /\ Case.enc.kind \notin {"Ok", "Err"} THEN {"C19.encodePanic"} ELSE {})
